@@ -152,33 +152,33 @@ macro_rules! apply_builder {
     ($b:expr, $op:expr) => {{
         let b = $b;
         match $op {
-            Op::Header { name, values, form } => Ok(match form.as_str() {
+            $crate::desc::Op::Header { name, values, form } => Ok(match form.as_str() {
                 "str" => b.header(name.as_str(), values[0].as_str()),
                 "string" => b.header(name.as_str(), values[0].clone()),
-                "slice" => { let v = hvals(values); b.header(name.as_str(), &v[..]) }
-                _ => { let v: HeaderValues = hvals(values).into(); b.header(name.as_str(), &v) }
+                "slice" => { let v = $crate::desc::hvals(values); b.header(name.as_str(), &v[..]) }
+                _ => { let v: crux_http::http::headers::HeaderValues = $crate::desc::hvals(values).into(); b.header(name.as_str(), &v) }
             }),
-            Op::ContentType { mime } => Ok(b.content_type(mime.as_str())),
-            Op::Body { kind, hex: h, json, pairs } => match kind.as_str() {
-                "string" => Ok(b.body_string(String::from_utf8(unhex(h)).unwrap())),
-                "bytes" => Ok(b.body_bytes(unhex(h))),
+            $crate::desc::Op::ContentType { mime } => Ok(b.content_type(mime.as_str())),
+            $crate::desc::Op::Body { kind, hex: h, json, pairs } => match kind.as_str() {
+                "string" => Ok(b.body_string(String::from_utf8($crate::desc::unhex(h)).unwrap())),
+                "bytes" => Ok(b.body_bytes($crate::desc::unhex(h))),
                 "json" => b.body_json(json.as_ref().unwrap()).map_err(|e| e.to_string()),
                 "form" => b.body_form(pairs.as_ref().unwrap()).map_err(|e| e.to_string()),
-                "into_str" => Ok(b.body(std::str::from_utf8(&unhex(h)).unwrap())),
-                "into_vec" => Ok(b.body(unhex(h))),
+                "into_str" => Ok(b.body(std::str::from_utf8(&$crate::desc::unhex(h)).unwrap())),
+                "into_vec" => Ok(b.body($crate::desc::unhex(h))),
                 "into_value" => Ok(b.body(json.clone().unwrap())),
-                "reader_none" => Ok(b.body(Body::from_reader(futures::io::Cursor::new(unhex(h)), None))),
-                "reader_len" => { let v = unhex(h); let n = v.len(); Ok(b.body(Body::from_reader(futures::io::Cursor::new(v), Some(n)))) }
-                "empty" => Ok(b.body(Body::empty())),
-                "json_bad" => b.body_json(&BadJson).map_err(|e| e.to_string()),
+                "reader_none" => Ok(b.body(crux_http::http::Body::from_reader(futures::io::Cursor::new($crate::desc::unhex(h)), None))),
+                "reader_len" => { let v = $crate::desc::unhex(h); let n = v.len(); Ok(b.body(crux_http::http::Body::from_reader(futures::io::Cursor::new(v), Some(n)))) }
+                "empty" => Ok(b.body(crux_http::http::Body::empty())),
+                "json_bad" => b.body_json(&$crate::desc::BadJson).map_err(|e| e.to_string()),
                 _ => b.body_form(&vec![vec![1u8]]).map_err(|e| e.to_string()),
             },
-            Op::Query { kind, pairs, page, q, tags } => match kind.as_str() {
-                "map" => { let m: BTreeMap<String, String> = pairs.iter().cloned().collect(); b.query(&m).map_err(|e| e.to_string()) }
-                "struct" => b.query(&QStruct { page: *page, q: q.clone(), tags: tags.clone() }).map_err(|e| e.to_string()),
+            $crate::desc::Op::Query { kind, pairs, page, q, tags } => match kind.as_str() {
+                "map" => { let m: std::collections::BTreeMap<String, String> = pairs.iter().cloned().collect(); b.query(&m).map_err(|e| e.to_string()) }
+                "struct" => b.query(&$crate::desc::QStruct { page: *page, q: q.clone(), tags: tags.clone() }).map_err(|e| e.to_string()),
                 _ => b.query(&"bare").map_err(|e| e.to_string()),
             },
-            Op::Append { .. } | Op::Remove { .. } => panic!("harness: request-stage op in builder stage"),
+            $crate::desc::Op::Append { .. } | $crate::desc::Op::Remove { .. } => panic!("harness: request-stage op in builder stage"),
         }
     }};
 }
